@@ -12,7 +12,8 @@ Lemma strip_spec : forall fuel v, 1 <= v ->
 Proof.
   induction fuel as [|f IH]; intros v Hv; cbn [strip_radix].
   - exists 0%nat. split; [lia|]. split; [change (10 ^ Z.of_nat 0) with 1; lia|]. split; [lia | right; reflexivity].
-  - unfold DENOMINATION_RADIX. destruct (v mod 10 =? 0) eqn:E.
+  - unfold DENOMINATION_RADIX. replace (negb (v =? 0)) with true by lia. cbn [andb].
+    destruct (v mod 10 =? 0) eqn:E.
     + pose proof (Z.div_mod v 10 ltac:(lia)) as D.
       assert (Hq : 1 <= v / 10) by lia.
       destruct (IH (v / 10) Hq) as (j & Hj & Hv' & Hs & Hd).
@@ -25,19 +26,28 @@ Lemma strip_pow : forall k fuel s, (k < fuel)%nat -> 1 <= s -> s mod 10 <> 0 ->
   strip_radix fuel (s * 10 ^ Z.of_nat k) = s.
 Proof.
   induction k as [|k IH]; intros fuel s Hk Hs Hm; (destruct fuel as [|f]; [lia|]); cbn [strip_radix]; unfold DENOMINATION_RADIX.
-  - change (10 ^ Z.of_nat 0) with 1. rewrite Z.mul_1_r. replace (s mod 10 =? 0) with false by lia. reflexivity.
-  - rewrite Nat2Z.inj_succ, Z.pow_succ_r by lia.
+  - change (10 ^ Z.of_nat 0) with 1. rewrite Z.mul_1_r. replace (s mod 10 =? 0) with false by lia. rewrite andb_false_r. reflexivity.
+  - assert (Hp : 0 < 10 ^ Z.of_nat (S k)) by (apply Z.pow_pos_nonneg; lia).
+    replace (negb (s * 10 ^ Z.of_nat (S k) =? 0)) with true by nia. cbn [andb].
+    rewrite Nat2Z.inj_succ, Z.pow_succ_r by lia.
     replace (s * (10 * 10 ^ Z.of_nat k)) with ((s * 10 ^ Z.of_nat k) * 10) by lia.
     rewrite Z.mod_mul by lia. rewrite Z.eqb_refl. rewrite Z.div_mul by lia. apply IH; [lia | assumption | assumption].
 Qed.
 
-Lemma canonical_equiv_gen v lo hi : 1 <= lo \/ 1 <= v -> hi < 10 ^ 20 ->
+Lemma strip_zero fuel : strip_radix fuel 0 = 0.
+Proof. destruct fuel; reflexivity. Qed.
+
+(** the loop decides membership in the series for every value once the lower bound (or the value)
+    is non-negative; in particular 0 is never canonical *)
+Lemma canonical_equiv_gen v lo hi : 0 <= lo \/ 0 <= v -> hi < 10 ^ 20 ->
   is_canonical_within v lo hi = canonical_spec v lo hi.
 Proof.
   intros Hlo Hhi. unfold is_canonical_within, canonical_spec.
   destruct ((v <? lo) || (hi <? v)) eqn:R.
   - symmetry. replace ((lo <=? v) && (v <=? hi)) with false by lia. reflexivity.
   - replace ((lo <=? v) && (v <=? hi)) with true by lia. cbn [andb].
+    assert (Hv0 : 0 <= v) by lia.
+    destruct (Z.eq_dec v 0) as [->|Hnz]; [rewrite strip_zero; reflexivity|].
     assert (Hv : 1 <= v) by lia.
     destruct (existsb (fun k : nat => let p := 10 ^ Z.of_nat k in (v =? p) || (v =? 2 * p) || (v =? 5 * p)) (seq 0 20)) eqn:X.
     + apply existsb_exists in X. destruct X as (k & Hk & Hx). apply in_seq in Hk. cbv zeta in Hx.
@@ -60,58 +70,41 @@ Proof.
       rewrite Hex in X. discriminate.
 Qed.
 
-Lemma canonical_equiv v lo hi : 1 <= lo -> hi < 10 ^ 20 ->
+Lemma canonical_equiv v lo hi : 0 <= lo -> hi < 10 ^ 20 ->
   is_canonical_within v lo hi = canonical_spec v lo hi.
 Proof. intros H1 H2. apply canonical_equiv_gen; [left; exact H1 | exact H2]. Qed.
 
-(** * Non-termination on zero.
-    The loop [while n.is_multiple_of(10) { n /= 10 }] has 0 as a fixed point of its body that
-    satisfies its guard: started on 0 it never exits. The model with the exit made visible
-    returns [None] (still running) for every amount of fuel. *)
-Lemma strip_zero_never_exits : forall fuel, strip_radix_opt fuel 0 = None.
-Proof. induction fuel as [|f IH]; [reflexivity|]. cbn [strip_radix_opt]. exact IH. Qed.
-
-Lemma strip_opt_some : forall fuel v, 1 <= v < 10 ^ Z.of_nat fuel ->
-  strip_radix_opt fuel v = Some (strip_radix fuel v).
+(** * Termination (after the repair: the loop stops at zero).
+    Before commit 7dcaa30 the loop [while n.is_multiple_of(10) { n /= 10 }] had 0 as a fixed point
+    satisfying its guard, and value 0 under a zero lower bound never got an answer. *)
+Lemma strip_opt_some : forall fuel v, 0 <= v < 10 ^ Z.of_nat fuel ->
+  strip_radix_opt (S fuel) v = Some (strip_radix (S fuel) v).
 Proof.
   induction fuel as [|f IH]; intros v Hv.
-  - change (10 ^ Z.of_nat 0) with 1 in Hv. lia.
-  - cbn [strip_radix_opt strip_radix]. unfold DENOMINATION_RADIX.
-    destruct (v mod 10 =? 0) eqn:E; [|reflexivity].
+  - change (10 ^ Z.of_nat 0) with 1 in Hv. assert (v = 0) by lia. subst. reflexivity.
+  - remember (S f) as g. cbn [strip_radix_opt strip_radix]. subst g. unfold DENOMINATION_RADIX.
+    destruct (negb (v =? 0) && (v mod 10 =? 0)) eqn:E; [|reflexivity].
     rewrite Nat2Z.inj_succ, Z.pow_succ_r in Hv by lia.
-    pose proof (Z.div_mod v 10 ltac:(lia)). apply IH. split; [lia|]. apply Z.div_lt_upper_bound; lia.
+    pose proof (Z.div_mod v 10 ltac:(lia)). apply IH. split; [apply Z.div_pos; lia|]. apply Z.div_lt_upper_bound; lia.
 Qed.
 
-(** the test terminates (and agrees with the total model) unless it is asked about 0 under a
-    non-positive lower bound *)
-Lemma canonical_opt_terminates v lo hi : 0 <= v < 10 ^ 64 -> 1 <= lo \/ 1 <= v ->
+(** the test terminates on every amount, whatever the bounds *)
+Lemma canonical_opt_terminates v lo hi : 0 <= v < 10 ^ 63 ->
   is_canonical_within_opt v lo hi = Some (is_canonical_within v lo hi).
 Proof.
-  intros Hv Hp. unfold is_canonical_within_opt, is_canonical_within.
+  intros Hv. unfold is_canonical_within_opt, is_canonical_within.
   destruct ((v <? lo) || (hi <? v)) eqn:R; [reflexivity|].
-  rewrite strip_opt_some; [reflexivity|]. change (Z.of_nat 64) with 64. lia.
+  change 64%nat with (S 63). rewrite strip_opt_some; [reflexivity|]. change (Z.of_nat 63) with 63. lia.
 Qed.
 
-(** KNOWN FINDING (class 2): value 0 under a zero lower bound never gets an answer *)
-Lemma canonical_zero_bound_refuted : forall hi, 0 <= hi -> is_canonical_within_opt 0 0 hi = None.
+(** zero is answered, and the answer is "not canonical" *)
+Lemma canonical_zero lo hi : is_canonical_within_opt 0 lo hi = Some false.
 Proof.
-  intros hi Hhi. unfold is_canonical_within_opt. replace ((0 <? 0) || (hi <? 0)) with false by lia.
-  rewrite strip_zero_never_exits. reflexivity.
+  rewrite canonical_opt_terminates by lia. unfold is_canonical_within.
+  destruct ((0 <? lo) || (hi <? 0)); [reflexivity|]. rewrite strip_zero. reflexivity.
 Qed.
 
-Lemma canonical_opt_none_iff v lo hi : 0 <= v < 10 ^ 64 ->
-  (is_canonical_within_opt v lo hi = None <-> v = 0 /\ lo <= 0 /\ 0 <= hi).
-Proof.
-  intros Hv. split.
-  - intros H. destruct (Z_le_gt_dec 1 v) as [G|G].
-    + rewrite canonical_opt_terminates in H by (try right; lia). discriminate.
-    + assert (v = 0) by lia. subst v. unfold is_canonical_within_opt in H.
-      destruct ((0 <? lo) || (hi <? 0)) eqn:R; [discriminate | lia].
-  - intros (-> & Hlo & Hhi). unfold is_canonical_within_opt.
-    replace ((0 <? lo) || (hi <? 0)) with false by lia. rewrite strip_zero_never_exits. reflexivity.
-Qed.
-
-Lemma canonical_equiv_wf v lo hi : 1 <= lo -> hi <= 21000000 * COIN ->
+Lemma canonical_equiv_wf v lo hi : 0 <= lo -> hi <= 21000000 * COIN ->
   is_canonical_within v lo hi = canonical_spec v lo hi.
 Proof. intros H1 H2. apply canonical_equiv; [exact H1 | unfold COIN in H2; lia]. Qed.
 
